@@ -43,6 +43,10 @@ CHECKS = {
    text="Histories of 2..30 wrapped calls in one long-lived process with snoopy.ini rewritten between calls from a pool covering every option (valid, invalid, duplicated), emptied, deleted, made unreadable, replaced by a directory or corrupted; each call's sink gains must equal those of the same call made first in a fresh process under the same file state (pid normalised). Thread-safe and non-thread-safe builds, plain and ASan (double frees); an interposed allocator checks that a second pass over the history leaves no additional Snoopy allocation live.",
    note="Destinations and records are observed at driver-owned sinks; the history runs as uid 12345 so that chmod 000 really makes the file unreadable."),
 
+ "C12": dict(level="exploration", design="3/C12", technique="runtime monitoring against an in-process independent oracle of the constructed process state",
+   text="Process states are constructed as root (pairwise distinct real/effective/saved uids and gids with and without passwd/group entries up to 2^32-2, sessions, deep/renamed/deleted/over-long cwd, stdin on own pty / foreign-owned pty / pipe / file / closed, UTS hostnames, environments incl. NULL and odd names, ancestor chains, utmp entries with IPv4/IPv6 addresses); right before each wrapped call the driver emits an ORACLE event from raw syscalls and its own /proc parsing, and the record with every data source is compared field by field with values derived offline from that event, the harness's own passwd/group/hosts/utmp files (bind-mounted in its mount namespace) and a time bracket.",
+   note="systemd_unit_name and snoopy_configure_command are not judged; placeholder wording for ids without entries is open (numeric form must carry the true unsigned id); assumes /etc/localtime is UTC in this sandbox."),
+
  "C14": dict(level="exploration", design="3/C14", technique="runtime monitoring under constructed uids",
    text="Children running under real uid R (0, 1, 999, 2^16-1, 2^16, 2^31-1, 2^31, 2^32-2) with an unrelated effective uid consult only_uid:L, exclude_uid:L and only_root through the production library for generated lists with near misses; outcomes are compared with exact set membership and only_uid xor exclude_uid.",
    note="Lists limited to one config line (about 85 uids)."),
